@@ -87,13 +87,59 @@ def stress():
     return out
 
 
+LEVELS = ["f(@)", "g(1, @)", "g(@, 1)", "c(@)", "l[@ * 0]", "(@).to_string().len()", "s.repeat(@ % 2).len()", "(1 + @)", "(@ + 1)", "(@ * 2 - 1)",
+          "[@][0]", "[0, @][1]", "new { a: @ }.a", "{ let t = @; t }", "if true { @ } else { 0 }", "if @ == 0 { 1 } else { 2 }",
+          "match @ { 0 => 1, _ => 2 }", "match 1 { 1 => @, _ => 0 }", "match 1 { 0 => 0, _ => @ }", "((@) as int)", "try { @ } catch e { 0 }",
+          "(-@)", "(?@).unwrap()", "(?@).unwrap_or(@)", "(0..@).diff()", "f(f(@))", "g(@, @)", "(@ + @)", "[@, @][0]"]
+STMT_LEVELS = ["if true { @ }", "if false { } else { @ }", "loop { @ break; }", "for i in 0..1 { @ }", "while true { @ break; }",
+               "try { @ } catch e { }", "try { throw(\"x\"); } catch e { @ }", "{ @ }", "let v = { @ 1 };", "f({ @ 1 });",
+               "match 1 { 1 => { @ }, _ => { } }", "let h = fn() { @ };"]
+PRE = "fn f(a: int) -> int { a }\nfn g(a: int, b: int) -> int { a + b }\n"
+MAINPRE = "let c = fn(a: int) -> int { a }; let l = [0]; let s = \"ab\"; "
+
+
+def typed_nestings(rnd, thorough):
+    """WELL-TYPED nesting: the analyzer goes all the way down (an ill-typed level would end the descent), through every
+    child position of every nestable construct; levels with two holes only to a depth where the source stays small"""
+    out = []
+    depths = (8, 30, 120, 400) if thorough else (8, 30, 120)
+    for lv in LEVELS:
+        two = lv.count("@") > 1
+        for n in depths:
+            if two and n > 8:
+                # (a level with two holes doubles the source per level: its own cost, not the analyzer's)
+                continue
+            e = "1"
+            for _ in range(n):
+                e = lv.replace("@", e)
+            out.append(PRE + "fn main() { " + MAINPRE + "let v = " + e + "; println(v); }\n")
+    for lv in STMT_LEVELS:
+        for n in depths:
+            b = "f(1);"
+            for _ in range(n):
+                b = lv.replace("@", b)
+            out.append(PRE + "fn main() { " + MAINPRE + b + " }\n")
+    one = [lv for lv in LEVELS if lv.count("@") == 1]
+    for k in range(40 if thorough else 12):
+        e = "1"
+        for _ in range(rnd.choice(depths[1:])):
+            e = rnd.choice(one).replace("@", e)
+        out.append(PRE + "fn main() { " + MAINPRE + "let v = " + e + "; println(v); }\n")
+        b = "f(1);"
+        for _ in range(rnd.choice(depths[1:3])):
+            b = rnd.choice(STMT_LEVELS).replace("@", b)
+        out.append(PRE + "fn main() { " + MAINPRE + b + " }\n")
+    return out
+
+
 def run(args):
     rep = C.Report("C05")
     thorough = C.tier() == "thorough"
     rnd = random.Random(C.seed())
     rep.cov["rule"] = ("inputs derived from the specifications: every string over HmsLex's class alphabet up to length %d, "
                        "lexeme adjacencies of its catalogue, token-level truncation / deletion / replacement / insertion of "
-                       "valid programs (spec-AST families and the repository's .hms files), nesting depth up to 1000 and "
+                       "valid programs (spec-AST families and the repository's .hms files), nesting depth up to 1000 (ill-typed levels) and "
+                       "up to 120 / 400 well-typed levels through every child position of every nestable expression and statement, "
                        "64 KiB inputs; each as entry module, as imported module text, and (inputs with import statements) as the "
                        "text a host returns for every module name; non-trivial = distinct inputs" %
                        (4 if thorough else 3))
@@ -137,6 +183,7 @@ def run(args):
             inputs.append(src[:cut])
     # (4) stress
     inputs += stress()
+    inputs += typed_nestings(rnd, thorough)
     inputs = list(dict.fromkeys(inputs))
     rep.notes["inputs"] = len(inputs)
 
